@@ -133,6 +133,13 @@ func groupCases() []groupCase {
 		{group.ExecutionStrategyRace, []string{"wait0", "fail1"}, true},
 		{group.ExecutionStrategyOne, []string{"fail0", "ok1", "wait2"}, false},
 		{group.ExecutionStrategyAll, []string{"ok0", "ok1"}, false},
+		// failures the strategy tolerates: the call succeeds, and what the failed members did not deliver is simply
+		// not part of the group's answer
+		{group.ExecutionStrategyMost, []string{"fail0", "ok1", "ok2"}, false},
+		{group.ExecutionStrategyMost, []string{"ok0", "fail1", "ok2"}, false},
+		{group.ExecutionStrategyAny, []string{"fail0", "ok1"}, false},
+		{group.ExecutionStrategyAny, []string{"fail0", "fail1", "ok2"}, false},
+		{group.ExecutionStrategyAny, []string{"ok0", "fail1"}, false},
 	}
 }
 
